@@ -371,13 +371,18 @@ pub fn finish(ctx: &Ctx, rep: Report, wall_s: f64) -> i32 {
         known_hit.len(),
         wall_s
     );
+    // A violation found by a sound oracle stands whatever the vacuity guards say about the *rest* of the
+    // run (a change in the subject may empty an outcome class); without violations a guard failure means the
+    // run proved less than it claims: machinery failure, not a verdict.
+    if nviol > 0 {
+        if let Some(e) = &rep.machinery_error {
+            eprintln!("note: vacuity/machinery guard also failed: {}", e);
+        }
+        return 1;
+    }
     if let Some(e) = rep.machinery_error {
         eprintln!("MACHINERY ERROR: {}", e);
         return 2;
     }
-    if nviol > 0 {
-        1
-    } else {
-        0
-    }
+    0
 }
